@@ -105,6 +105,14 @@ func c15Execute(c *c15Case, base string, rec *vh.Recorder) (fail *vh.Failure, la
 		who := p.Who % 3
 		s := posters[who]
 		var code int
+		// "$ME" stands for the poster's current nickname (commands that act on the own nickname)
+		if strings.Contains(p.Line, "$ME") {
+			me := "nobody"
+			if sess, err := ircServer.GetSession(robust.Id{Id: s.Num}); err == nil && sess.Nick != "" {
+				me = sess.Nick
+			}
+			p.Line = strings.ReplaceAll(p.Line, "$ME", me)
+		}
 		switch p.Kind {
 		case "json":
 			cmid++
@@ -178,7 +186,7 @@ func c15Execute(c *c15Case, base string, rec *vh.Recorder) (fail *vh.Failure, la
 	return nil, keys2(lab), hostile && toOthers
 }
 
-var c15Targets = []string{"PRIVMSG #c :", "NOTICE #c :", "PRIVMSG target :", "TOPIC #c :", "PART #c :", "QUIT :", "AWAY :", "KICK #c observer :", "NICK ", "USER x 0 * :", "JOIN #", "PRIVMSG #c,target :", "KNOCK #c :", "INVITE target #c", "MODE #c +k "}
+var c15Targets = []string{"MODE #c +", "MODE $ME +", "MODE $ME -", "MODE #c ", "PRIVMSG #c :", "NOTICE #c :", "PRIVMSG target :", "TOPIC #c :", "PART #c :", "QUIT :", "AWAY :", "KICK #c observer :", "NICK ", "USER x 0 * :", "JOIN #", "PRIVMSG #c,target :", "KNOCK #c :", "INVITE target #c", "MODE #c +k "}
 
 func c15GenLine(t *rapid.T) string {
 	prefix := rapid.SampledFrom(c15Targets).Draw(t, "lineprefix")
@@ -202,6 +210,16 @@ func c15GenLine(t *rapid.T) string {
 		payload = rapid.SampledFrom([]string{"", " ", ":", " :", "hello there", "\x01ACTION waves\x01", "\t"}).Draw(t, "plain")
 	default:
 		payload = strings.Repeat(rapid.SampledFrom([]string{"ab ", ": ", "\r", "é "}).Draw(t, "rep"), rapid.IntRange(1, 300).Draw(t, "repn"))
+	}
+	// characters whose low byte is LF, CR, NUL or a blank (U+4E0A, U+4E0D, U+4E00, U+010A, U+010D,
+	// U+0100, U+0120): harmless as text, a terminator wherever a character is narrowed to a byte
+	if rapid.IntRange(0, 5).Draw(t, "lowbyte") == 0 {
+		n := rapid.IntRange(1, 4).Draw(t, "lowbyten")
+		mixed := ""
+		for k := 0; k < n; k++ {
+			mixed += rapid.SampledFrom([]string{"上", "不", "一", "Ċ", "č", "Ā", "Ġ", "i", "o", "b"}).Draw(t, "lowbytechar")
+		}
+		payload = mixed + rapid.SampledFrom([]string{"", ":evil!e@e PRIVMSG #c :forged", " x"}).Draw(t, "lowbytetail")
 	}
 	line := prefix + payload
 	// the terminator far behind the start: more than 512 bytes of parameters or blanks which the
